@@ -22,6 +22,10 @@ def deco_name(d):
     return "?"
 
 
+MODELLED_DECORATORS = {"staticmethod", "classmethod", "property", "abstractmethod", "abc.abstractmethod", "log_call", "logger.log_call",
+                       "functools.wraps", "wraps"}
+
+
 class FuncInfo:
     def __init__(self, node, module, cls=None):
         self.node = node
@@ -31,6 +35,9 @@ class FuncInfo:
         self.qualname = (cls.name + "." if cls is not None else "") + node.name
         decos = [deco_name(d) for d in node.decorator_list]
         self.decos = decos
+        # decorators whose effect on the call is modelled (log_call only logs; abstractmethod/unique/wraps do not alter calls);
+        # any other decorator can change what a call does (memoisation, swallowed exceptions ...): the function is then out of reach
+        self.unmodelled_decos = [d for d in decos if d not in MODELLED_DECORATORS and not d.endswith(".setter")]
         if "staticmethod" in decos:
             self.kind = "static"
         elif "classmethod" in decos:
